@@ -15,6 +15,10 @@ import (
 func init() { register("C03", runC03) }
 
 func runC03(c *mon.Ctx) {
+	if flagMode == "lifecycle" {
+		c.Cases(func(i int, r *mon.Rand) { lifecycleCase(c, r, "C03") })
+		return
+	}
 	c.Cases(func(i int, r *mon.Rand) { c03Case(c, i, r) })
 }
 
